@@ -1,6 +1,7 @@
 /-
   C08 — unready or out-of-sync shards are left alone until they are in sync.
 -/
+import Kvass.Pins.Coord
 import Kvass.Proofs.CoordKeep
 
 namespace Kvass.Props.C08
